@@ -3,6 +3,8 @@ import Midgard.Model.Geodetic
 import Midgard.Generated.Ellipsoids
 import Midgard.Generated.EllipsoidFlow
 import Midgard.Model.EllArith
+import Midgard.Model.GeoSelect
+import Midgard.Generated.TrsSelect
 import Midgard.Generated.EllipsoidArith
 
 /-! Driver for C05: ellipsoid parameters (`Rat` and `Float`), `trs2llh` / `llh2trs` (`Float`), and the
@@ -119,6 +121,23 @@ def handle : List String → Option String
     | [x, y, z] =>
       let g := trs2llh E ⟨x, y, z⟩
       pure s!"{Wire.render g.lat} {Wire.render g.lon} {Wire.render g.h}"
+    | _ => none
+  | "c05" :: "f" :: "trs2llhsel" :: dim :: name :: rest => do
+    -- `_trs2llh` with the branch selection statements regenerated from the source (`2d`: arrays, `1d`: a single position)
+    let E ← ellF? name
+    let prog ← (match dim with
+      | "2d" => some Midgard.Generated.TrsSelect.prog2d
+      | "1d" => some Midgard.Generated.TrsSelect.prog1d
+      | _ => none)
+    match ← parseAll? (α := Float) rest with
+    | [x, y, z] =>
+      let g := trs2llhVia prog E ⟨x, y, z⟩
+      pure s!"{Wire.render g.lat} {Wire.render g.lon} {Wire.render g.h}"
+    | _ => none
+  | "c05" :: "f" :: "toffset" :: name :: rest => do
+    let E ← ellF? name
+    match ← parseAll? (α := Float) rest with
+    | [p, z] => pure (Wire.render (tangentialOffsetOf E p z))
     | _ => none
   | "c05" :: "f" :: "llh2trs" :: name :: rest => do
     let E ← ellF? name
